@@ -3,6 +3,7 @@ module verif/harness
 go 1.23.0
 
 require (
+	github.com/google/rpmpack v0.6.1-0.20240329070804-c2247cbb881a
 	github.com/goreleaser/fileglob v1.3.0
 	github.com/goreleaser/nfpm/v2 v2.0.0
 	github.com/klauspost/compress v1.18.0
@@ -26,7 +27,6 @@ require (
 	github.com/go-git/go-git/v5 v5.14.0 // indirect
 	github.com/gobwas/glob v0.2.3 // indirect
 	github.com/golang/groupcache v0.0.0-20241129210726-2c02b8208cf8 // indirect
-	github.com/google/rpmpack v0.6.1-0.20240329070804-c2247cbb881a // indirect
 	github.com/google/uuid v1.6.0 // indirect
 	github.com/goreleaser/chglog v0.7.0 // indirect
 	github.com/huandu/xstrings v1.5.0 // indirect
